@@ -273,8 +273,12 @@ func rndCmd(r *rand.Rand) absCmd {
 		HasDur: r.Intn(2) == 0, Immediate: r.Intn(3) == 0, Spec: true, Pts: rnd33(r), AutoRet: r.Intn(2) == 0, Dur: rnd33(r),
 		Upid: r.Intn(65536), Avail: r.Intn(256), Avails: r.Intn(256)}
 	if !c.Program {
-		for k := r.Intn(4); k > 0; k-- {
-			c.Comps = append(c.Comps, absComp{Tag: r.Intn(256), Spec: r.Intn(4) != 0, Pts: rnd33(r)})
+		n, specOdds := r.Intn(4), 4
+		if r.Intn(3) == 0 { // longer lists, most components without a specified time (one byte instead of five)
+			n, specOdds = 3+r.Intn(10), 1+r.Intn(2)
+		}
+		for k := n; k > 0; k-- {
+			c.Comps = append(c.Comps, absComp{Tag: r.Intn(256), Spec: r.Intn(specOdds+1) >= 2, Pts: rnd33(r)})
 		}
 	}
 	return c
